@@ -36,6 +36,15 @@ Theorem C19_to_string : forall name ty inner prefix, In (name, (ty, (inner, pref
      (text = prefix ++ "(" ++ hex0xl (Z.to_N v) ++ ")" /\ value_of 16 (hexl (Z.to_N v)) 0 = Z.to_N v)).
 Proof. apply to_string_ok_spec; vm_compute; reflexivity. Qed.
 
+(* p_flags_to_string (hand-written reading of the one wrapper of another shape, with the PF_* masks
+   taken from the constants regenerated from abi.rs), for ANY u32: below 8 exactly the gABI letters
+   (R = bit 2, W = bit 1, E = bit 0, blank otherwise), from 8 on p_flags(0x<hex>) reading back *)
+Theorem C19_p_flags : forall v, (0 <= v < 2 ^ 32)%Z ->
+  ((v < 8)%Z -> p_flags_string abi_consts v = p_flags_ref v) /\
+  ((8 <= v)%Z -> p_flags_string abi_consts v = "p_flags(" ++ hex0xl (Z.to_N v) ++ ")" /\
+                 value_of 16 (hexl (Z.to_N v)) 0 = Z.to_N v).
+Proof. apply p_flags_ok_spec. vm_compute. reflexivity. Qed.
+
 (* non-vacuity: the reference table is not empty and the crate exports names from it *)
 Example C19_example :
   const_val abi_consts "SHT_NOBITS" = Some 8%Z /\ In ("SHT_NOBITS", 8%Z) ref_consts /\
